@@ -188,7 +188,7 @@ def _check_grouped(members, values):
         if g._asdict()[n] != wv[n]:
             return f"_asdict()[{n!r}] is {g._asdict()[n]!r}, the first member that has the field holds {wv[n]!r}"
     sel = [n for _, n in want][::-1][:2]
-    if list(g._asdict(fields=sel)) != sel or any(g._asdict(fields=sel)[n] != wv[n] for n in sel):
+    if sel and (list(g._asdict(fields=sel)) != sel or any(g._asdict(fields=sel)[n] != wv[n] for n in sel)):  # (an empty selection means: no selection)
         return f"_asdict(fields={sel}) gives {g._asdict(fields=sel)!r}"
     try:
         g.nosuchfield
